@@ -151,6 +151,18 @@ def make_callable(fid: str, fd: dict):
 _IDS = itertools.count()
 
 
+def py_value(j: dict):
+    """A default / bound value given as term JSON -> the Python value a user would write: arrays become lists (rank 1) or
+    object ndarrays (rank >= 2), everything else an opaque Term."""
+    t = from_json(j)
+    if t.f != "#arr":
+        return t
+    from .terms import arr_shape, to_ndarray
+    rank = len(arr_shape(t))
+    arr = to_ndarray(t, rank)
+    return list(arr) if rank == 1 else arr
+
+
 def make_pipefunc(fd: dict, tag: str = ""):
     from pipefunc import PipeFunc
 
@@ -158,8 +170,8 @@ def make_pipefunc(fd: dict, tag: str = ""):
     REG[fid] = fd
     fn = make_callable(fid, fd)
     renames = {orig_name(fd, p): p for p in fd["params"] if p in fd.get("renamed", [])}
-    defaults = {p: from_json(v) for p, v in (fd.get("defaults") or {}).items()}
-    bound = {p: from_json(v) for p, v in (fd.get("bound") or {}).items()}
+    defaults = {p: py_value(v) for p, v in (fd.get("defaults") or {}).items()}
+    bound = {p: py_value(v) for p, v in (fd.get("bound") or {}).items()}
     outs = fd["outputs"]
     ishape = fd.get("internal_shape") or None
     orig_outs = list(outs)
